@@ -1353,8 +1353,11 @@ class SyncedStackedTransforms(StackedTransforms):
         except ImportError:  # pragma: no cover
             pass
 
-        fn.__code__ = code
+        # Another thread may call fn at any point: the new code must only be
+        # installed once everything it relies on is in place (the code refers
+        # to its function through the global named by the token).
+        fn.__globals__[token] = fn
         fn.__ptera_info__ = info
         fn.__ptera_token__ = token
         fn.__ptera_discard__ = False
-        fn.__globals__[fn.__ptera_token__] = fn
+        fn.__code__ = code
